@@ -96,6 +96,9 @@ func runC02(r *Report) {
 	// reservation leaks reaches the in-flight limit and is never requested again
 	c09R3(r.sub("R6"))
 	c09R5(r.sub("R6"))
+	// … and that the torrent's loop itself can never block for ever on a peer (or anything else): the whole inventory
+	// of channel operations (C17.R1) — a loop stuck in peer.GetStatus on a peer that has exited starves every reader
+	c17Inventory(r.sub("R7"))
 	// ---- R2
 	// linear form over the reader's own fields (and len(a)): offsets that cancel are accepted
 	type lin struct {
